@@ -438,7 +438,7 @@ def run_case(c):
     assert abs(sum(M.area) - M.total_area) <= 16 * M.n_ent * EPS * M.total_area
     asm_list = np.array([float(p) if types[p] is not None else np.nan
                          for p in range(npos)])
-    gap_flow = GAP_FLOW
+    gap_flow = float(c.get('gap_flow') or GAP_FLOW)
     try:
         if c.get('via') == 'reactor':
             # the Core the real Reactor constructs for this loading (Reactor._setup_core: position ids,
@@ -452,7 +452,7 @@ def run_case(c):
                     gap_flow, want, 1e-12 * want, site='reactor.py:_setup_core')
             r['transitions'] += 2
         else:
-            core = Core(asm_list, PITCH, GAP_FLOW, cool, inlet_temperature=623.15,
+            core = Core(asm_list, PITCH, gap_flow, cool, inlet_temperature=623.15,
                         model='flow')
             r['transitions'] += 1
             core.load([tpl[t] for t in M.tname])
@@ -835,6 +835,10 @@ def main(run):
     run.check_determinism(run_case, c7[len(c7) // 2])
     res7 = run.explore('p7', c7, run_case, budget_s=60, chunksize=64)
     run.explore('reactor', reactor_cases(run.tier), run_case, budget_s=120, chunksize=4)
+    # an almost stagnant gap (2e-5 kg/s: microgram-per-second cells): the flow is still split in proportion
+    # to the cell areas and sums to the gap flow; every fully occupied 7-position loading
+    low = [dict(x, part='p7low', gap_flow=2.0e-5) for x in c7 if x['n_asm'] == 7]
+    run.explore('p7low', low, run_case, budget_s=60, chunksize=64)
     run.explore('p19', c19, run_case, budget_s=120, chunksize=4)
     run.explore('p37', c37, run_case, budget_s=300, chunksize=1)
     # cross-case: total area identical for every type assignment of one subset
